@@ -87,6 +87,7 @@ type world struct {
 	bnErrs   bool
 	errsLeft int
 	batchVC  bool // validator clients submit all attestations of a slot in one call
+	syncMsgs bool // every validator is in the sync committee: its clients sign the head root of their view in every slot
 
 	mu       sync.Mutex
 	served   map[eth2p0.Root]string // block roots the beacon nodes produced in this run
@@ -406,8 +407,16 @@ func (b *fullBeacon) SubmitAggregateAttestations(context.Context, *eth2api.Submi
 	return b.unexpected("aggregate attestations")
 }
 
-func (b *fullBeacon) SubmitSyncCommitteeMessages(context.Context, []*altair.SyncCommitteeMessage) error {
-	return b.unexpected("sync committee messages")
+func (b *fullBeacon) SubmitSyncCommitteeMessages(ctx context.Context, msgs []*altair.SyncCommitteeMessage) error {
+	verifrt.Yield()
+	duty, ok := dutyOf(ctx)
+	if !b.w.syncMsgs || !ok || duty.Type != core.DutySyncMessage {
+		return b.unexpected("sync committee messages")
+	}
+	for _, m := range msgs {
+		b.w.onSyncMessage(b.n.Idx, duty, m)
+	}
+	return nil
 }
 
 func (b *fullBeacon) SubmitSyncCommitteeContributions(context.Context, []*altair.SignedContributionAndProof) error {
@@ -420,6 +429,21 @@ func (b *fullBeacon) SubmitVoluntaryExit(context.Context, *eth2p0.SignedVoluntar
 
 func (b *fullBeacon) SubmitValidatorRegistrations(context.Context, []*eth2api.VersionedSignedValidatorRegistration) error {
 	return b.unexpected("validator registrations")
+}
+
+// dutyTagger is the node's real broadcaster; it only notes the duty of the call in the context, so that
+// the beacon node's submission endpoint can attribute what it receives to the duty charon performed.
+type dutyTagger struct{ b bcast.Broadcaster }
+
+type dutyKey struct{}
+
+func (t dutyTagger) Broadcast(ctx context.Context, duty core.Duty, set core.SignedDataSet) error {
+	return t.b.Broadcast(context.WithValue(ctx, dutyKey{}, duty), duty, set)
+}
+
+func dutyOf(ctx context.Context) (core.Duty, bool) {
+	d, ok := ctx.Value(dutyKey{}).(core.Duty)
+	return d, ok
 }
 
 type noRegs struct{}
@@ -489,6 +513,53 @@ func (w *world) onAttestation(node int, a *eth2spec.VersionedAttestation) {
 	}
 	w.mu.Lock()
 	w.done["attester"] = true
+	w.mu.Unlock()
+}
+
+func headRoot(slot uint64, view int) eth2p0.Root { return eth2p0.Root{0xb0, byte(slot), byte(view)} }
+
+// consensus spec: DOMAIN_SYNC_COMMITTEE at the epoch of the message's slot over the beacon block root
+func (w *world) syncRoot(slot uint64, root eth2p0.Root) [32]byte {
+	return w.specRoot("DOMAIN_SYNC_COMMITTEE", w.epochOf(slot), root)
+}
+
+func (w *world) onSyncMessage(node int, duty core.Duty, m *altair.SyncCommitteeMessage) {
+	c := w.c
+	c.Progress()
+	if m == nil {
+		c.Violate("C01", "broadcast-type", "malformed-sync-message", "node %d submitted a nil sync committee message", node)
+		return
+	}
+	val := w.valByIndex(m.ValidatorIndex)
+	if val == nil {
+		c.Violate("C01", "unknown-validator", "broadcast-for-validator-outside-cluster", "node %d submitted a sync committee message for validator index %d, no cluster validator", node, m.ValidatorIndex)
+		return
+	}
+	key := fmt.Sprintf("%d/sync_message/v%d", duty.Slot, val.Index)
+	verifrt.Note("SUBMIT n%d %s slot %d root %x", node, key, m.Slot, m.BeaconBlockRoot[:3])
+	sr := w.syncRoot(uint64(m.Slot), m.BeaconBlockRoot)
+	if err := tbls.Verify(val.PubKey, sr[:], tbls.Signature(m.Signature)); err != nil {
+		c.Violate("C01", "invalid-group-signature", "broadcast-signature-does-not-verify-under-group-key", "node %d submitted %s whose signature does not verify under the validator's group public key for its own signing root: %v", node, key, err)
+	}
+	w.oneRoot(node, key, sr)
+	ok := false
+	for view := 0; view < w.views; view++ {
+		if m.BeaconBlockRoot == headRoot(duty.Slot, view) {
+			ok = true
+		}
+	}
+	if !ok || duty.Slot < w.first || duty.Slot > w.last {
+		c.Violate("C01", "validity", "signed-content-never-signed-by-an-honest-validator-client", "%s: node %d submitted a sync message for a head root %x which no honest validator client signed for this duty", key, node, m.BeaconBlockRoot[:3])
+		return
+	}
+	if uint64(m.Slot) != duty.Slot {
+		// the message's slot is not part of its signing root (only its epoch's fork version is): a Byzantine
+		// partial for another slot of the same fork over the same head root matches the honest ones and sigagg
+		// takes the carrier object from the first partial. The statement holds; the foreign field is recorded
+		verifrt.Probe("submitted-sync-message-with-foreign-unsigned-slot")
+	}
+	w.mu.Lock()
+	w.done["sync-message"] = true
 	w.mu.Unlock()
 }
 
@@ -592,6 +663,21 @@ func (w *world) runVC(n *cluster.Node) {
 				}
 			})
 		}
+		if w.syncMsgs {
+			// sync committee messages need no consensus: the client signs the head root of its node's view
+			// for every validator, one call per slot (at 1/3 of the slot, like attestations)
+			verifrt.Go(func() {
+				sleepUntil(cl.SlotStart(slot).Add(cl.Cfg.SlotDuration/3 + time.Duration(verifrt.Intn("w", 400))*time.Millisecond))
+				var msgs []*altair.SyncCommitteeMessage
+				root := headRoot(slot, w.viewOf(n.Idx, slot))
+				for _, v := range cl.Vals {
+					sr := w.syncRoot(slot, root)
+					msgs = append(msgs, &altair.SyncCommitteeMessage{Slot: eth2p0.Slot(slot), BeaconBlockRoot: root, ValidatorIndex: v.Index, Signature: signRoot(v.Shares[n.Idx+1], sr)})
+				}
+				err := n.VAPI.SubmitSyncCommitteeMessages(n.Ctx, msgs)
+				verifrt.Note("n%d vc sync messages slot %d err=%v", n.Idx, slot, err)
+			})
+		}
 		if pv := w.prop[slot]; pv != nil {
 			mode := verifrt.Intn("w", 8)
 			if mode == 7 {
@@ -669,7 +755,16 @@ func (w *world) byzantine(ctx context.Context, i int) {
 		v := cl.Vals[verifrt.Intn("a", len(cl.Vals))]
 		own := v.Shares[i+1]
 		var msgs []*pbv1.ParSigExMsg
-		if pv := w.prop[slot]; pv != nil && verifrt.Intn("a", 2) == 0 {
+		if w.syncMsgs && verifrt.Intn("a", 3) == 0 {
+			// a partial that is valid for its own slot and fork - a sync message for a served head root but a
+			// slot beyond the fork boundary - sent under the running slot's duty: it passes the per-partial check
+			// and has the same message root as the honest partials
+			other := (slot/w.spe+1)*w.spe + uint64(verifrt.Intn("a", 3))
+			root := headRoot(slot, verifrt.Intn("a", w.views))
+			m := &altair.SyncCommitteeMessage{Slot: eth2p0.Slot(other), BeaconBlockRoot: root, ValidatorIndex: v.Index, Signature: signRoot(own, w.syncRoot(other, root))}
+			msgs = []*pbv1.ParSigExMsg{w.parSigMsg(core.NewSyncMessageDuty(slot), v.CorePK, core.NewPartialSignedSyncMessage(m, i+1))}
+			verifrt.Fault("byz:cross-fork-sync-partial")
+		} else if pv := w.prop[slot]; pv != nil && verifrt.Intn("a", 2) == 0 {
 			// a partial block signature over a block of another view (or one no beacon node produces)
 			view := verifrt.Intn("a", w.views+2)
 			blk := viewBlock(view, slot, pv, w.groupRandao(pv, w.epochOf(slot)), [32]byte{})
@@ -765,6 +860,10 @@ func body(c *kernel.Ctx) {
 	w.bnErrs = verifrt.Intn("cfg", 3) == 2
 	w.errsLeft = 1 + verifrt.Intn("cfg", 6)
 	w.batchVC = verifrt.Intn("cfg", 2) == 1
+	w.syncMsgs = verifrt.Intn("cfg", 2) == 1
+	if w.syncMsgs {
+		verifrt.Probe("enabled:sync-message")
+	}
 	for s := w.first; s <= w.last; s++ {
 		if verifrt.Intn("cfg", 3) == 2 {
 			w.prop[s] = cl.Vals[verifrt.Intn("cfg", len(cl.Vals))]
@@ -774,6 +873,9 @@ func body(c *kernel.Ctx) {
 			w.view[[2]uint64{uint64(i), s}] = verifrt.Intn("w", views)
 		}
 	}
+	// a fork activates at the next epoch boundary (which many runs cross): objects of later slots are signed
+	// under another fork version
+	cl.Chain.Forks = []simbeacon.Fork{{Epoch: w.epochOf(first) + 1, Version: eth2p0.Version{0x00, 0x00, 0x10, 0x21}}}
 	cl.View = w.viewOf
 	cl.WithGraffiti = true
 	cl.BeaconErr = func(node, call int) error {
@@ -865,7 +967,7 @@ func body(c *kernel.Ctx) {
 		if err != nil {
 			panic(err)
 		}
-		return b
+		return dutyTagger{b}
 	}
 	cl.Net.Fate = func(e *simnet.Envelope) simnet.Fate {
 		fate := simnet.Fate{Delay: time.Duration(verifrt.Intn("n", maxDelay)) * time.Millisecond}
@@ -983,6 +1085,9 @@ func (w *world) final(nSlots int) {
 			}
 		}
 	}
+	if w.syncMsgs {
+		total += nSlots * len(w.cl.Vals)
+	}
 	var keys []string
 	for k := range w.roots {
 		keys = append(keys, k)
@@ -993,7 +1098,7 @@ func (w *world) final(nSlots int) {
 	if total > 0 && len(keys) == total {
 		verifrt.Probe("all-duties-completed")
 	}
-	for _, kind := range []string{"attester", "proposer"} {
+	for _, kind := range []string{"attester", "proposer", "sync-message"} {
 		if w.done[kind] {
 			verifrt.Probe("completed:" + kind)
 		}
